@@ -17,9 +17,11 @@
 (*       tmo: which deadlines are configured (none / ht = HandshakeTimeout *)
 (*       / ctx = context deadline / bothe = both, the context deadline is  *)
 (*       the earlier instant / bothl = both, the HandshakeTimeout is);     *)
-(*       rbuf = Dialer.ReadBufferSize.  No clause of the model depends on  *)
-(*       rbuf or on how the transport segments the reply (d.reply.seg):    *)
-(*       every outcome below is demanded for all of them alike.            *)
+(*       rbuf = Dialer.ReadBufferSize; trace = the context of every call   *)
+(*       carries an httptrace.ClientTrace with all hooks set.  No clause   *)
+(*       of the model depends on rbuf, on trace or on how the transport    *)
+(*       segments the reply (d.reply.seg): every outcome below is demanded *)
+(*       for all of them alike.                                            *)
 (*   d : the inputs of one DialContext call                                *)
 (*       [scheme, user, host, bare, hform, port, path, hasq, query, frag,  *)
 (*        hdrs, reply, creply, cert]                                       *)
@@ -247,6 +249,7 @@ LayerOK(c, d, st, E, L) ==
             /\ IF c.ppass THEN L.auth = "basic" /\ L.authok ELSE L.auth = "none"   \* AuthIffPassword
        [] L.t = "socks" ->
             /\ L.cmd = 1 /\ L.addr = d.bare /\ L.port = PortOf(d)
+            /\ c.ppass => L.userpass /\ L.credok       \* "driven equivalently": the proxy URL's user:password is presented
        [] L.t = "get" ->
             /\ L.method = "GET" /\ L.proto = "HTTP/1.1" /\ L.wf /\ L.std
             /\ L.tgt = Target(d)                                         \* path and query preserved
@@ -263,7 +266,10 @@ LayerOK(c, d, st, E, L) ==
             /\ IF c.comp THEN L.cnt.extensions = 1 /\ "permessage-deflate" \in DRng(L.exts)
                ELSE L.cnt.extensions = 0
             /\ \A i \in DOMAIN d.hdrs :
-                 (~IsOwned(c, d.hdrs[i].k) /\ d.hdrs[i].k # "Host") => L.seen[i]   \* caller headers included
+                 (~IsOwned(c, d.hdrs[i].k) /\ d.hdrs[i].k # "Host") => L.seen[i]   \* caller headers included:
+            \* every value of a field the caller gave several values, and in the caller's order
+            /\ \A i, j \in DOMAIN d.hdrs :
+                 (i < j /\ d.hdrs[i].k = d.hdrs[j].k /\ ~IsOwned(c, d.hdrs[i].k) /\ d.hdrs[i].k # "Host") => L.pos[i] < L.pos[j]
        [] OTHER -> FALSE
 
 (* A trailing "junk" layer (a request cut short) is admissible only when a *)
